@@ -52,8 +52,15 @@ def export_job(p: Dict[str, Any]) -> Dict[str, Any]:
                 "tb": traceback.format_exc()[-1500:]}
     data = model.SerializeToString()
     from mc import gspace as G
+    from mc import walker
+    et = walker.elem_types(model)
     out = {"status": "ok", "bytes": len(data), "nodes": len(model.graph.node),
-           "has_loop": "Loop" in G.op_histogram(model)}
+           "has_loop": "Loop" in G.op_histogram(model),
+           "double_places": (et.get(11, []) + et.get(15, []))[:6],
+           "float_places": (et.get(1, []) + et.get(14, []))[:6],
+           "out_types": [o.type.tensor_type.elem_type for o in model.graph.output],
+           "digest": __import__("hashlib").sha256(data).hexdigest()[:16],
+           "double": bool(overrides.get("enable_double_precision", corpus.double(tp)))}
     if p.get("out_dir"):
         path = os.path.join(p["out_dir"], p.get("name") or (_safe(p["pid"]) + ".onnx"))
         with open(path, "wb") as f:
@@ -426,6 +433,10 @@ def numeric_job(p: Dict[str, Any]) -> Dict[str, Any]:
     m_in, binding, pointwise = c["m_in"], c["binding"], c["pointwise"]
     ref = c["ref"]
     double_budget = dbl and c["all_f64"]
+    if p.get("require_all_f64") and not double_budget:
+        out["skipped"] = "not all-float64 in JAX x64 mode"
+        out["all_f64"] = False
+        return out
     combos, capped = pattern_combos(meta, tier)
     out["capped"] = capped
     if p.get("combo") is not None:
@@ -521,8 +532,10 @@ def numeric_job(p: Dict[str, Any]) -> Dict[str, Any]:
                     out["ort_divergence"].append({"patterns": names, "what": diff[:200]})
                     continue
             out["mismatch"].append({"patterns": names, "class": cls, "what": diff[:400],
+                                    "ratio": (float(worst) if np.isfinite(worst) else None),
                                     "ref": "agrees-with-ort" if s_ref == "ok" else f"unavailable: {str(o_ref)[:80]}"})
     out["nontrivial"] = 1 if len(distinct_out) > 1 else 0
     out["pointwise"] = pointwise
+    out["all_f64"] = bool(c["all_f64"])
     out["elapsed_s"] = round(_time.time() - _t0, 2)
     return out
